@@ -256,7 +256,7 @@ def classify(ctx, case):
 
 def run(ctx):
     rng = ctx.rng
-    for _ in range(ctx.budget(700, 40000)):
+    for _ in range(ctx.budget(700, 16000)):
         m = G.model(rng)
         dbkind = "file" if rng.random() < 0.15 else "memory"
         for dit in (False, True):
